@@ -4,7 +4,7 @@ import ast, builtins, operator, types
 import z3
 from . import api, src
 from .core import simp, Unsupported, PathEnd, PyRaise
-from .zsorts import VStruct, VOpt, VBox, VObj, VAbs
+from .zsorts import VStruct, VOpt, VBox, VObj, VAbs, VMatch
 from .interp import (Frame, Closure, BoundMethod, SpecRef, Builtin, is_sym, contains_sym, _mro_dict)
 
 _MISSING = object()
@@ -121,7 +121,42 @@ class ExprMixin:
                 parts.append(conv(x) if v.conversion != -1 else format(x, self.ev(v.format_spec, fr) if v.format_spec else ''))
         return ''.join(parts)
 
+    PURE_METHODS = {'strip', 'lstrip', 'rstrip', 'upper', 'lower', 'startswith', 'endswith'}
+
+    def is_simple(self, e):
+        """side-effect-free, non-raising expression: may be evaluated as one merged term instead of forking paths"""
+        if isinstance(e, (ast.Name, ast.Constant)):
+            return True
+        if isinstance(e, ast.Attribute):
+            return self.is_simple(e.value)
+        if isinstance(e, ast.BoolOp):
+            return all(self.is_simple(v) for v in e.values)
+        if isinstance(e, ast.UnaryOp) and isinstance(e.op, ast.Not):
+            return self.is_simple(e.operand)
+        if isinstance(e, ast.Compare):
+            return self.is_simple(e.left) and all(self.is_simple(c) for c in e.comparators) and \
+                all(isinstance(o, (ast.Eq, ast.NotEq, ast.Is, ast.IsNot, ast.Lt, ast.LtE, ast.Gt, ast.GtE)) for o in e.ops)
+        if isinstance(e, ast.IfExp):
+            return self.is_simple(e.test) and self.is_simple(e.body) and self.is_simple(e.orelse)
+        if isinstance(e, ast.Call) and isinstance(e.func, ast.Attribute) and e.func.attr in self.PURE_METHODS and not e.keywords:
+            return self.is_simple(e.func.value) and all(isinstance(a, ast.Constant) or self.is_simple(a) for a in e.args)
+        return False
+
+    def ev_merged(self, e, fr):
+        """evaluate a simple expression without forking; falls back to the forking evaluation when it cannot be merged"""
+        self._pure += 1
+        try:
+            return True, self.ev(e, fr)
+        except Unsupported:
+            return False, None
+        finally:
+            self._pure -= 1
+
     def ev_IfExp(self, e, fr):
+        if not self.cur_pure() and self.is_simple(e):
+            ok, v = self.ev_merged(e, fr)
+            if ok:
+                return v
         c = self.truth(self.ev(e.test, fr))
         if isinstance(c, bool):
             return self.ev(e.body if c else e.orelse, fr)
@@ -347,6 +382,8 @@ class ExprMixin:
             return self.lor(*[self.eq(x, y) for y in cont.d])
         if isinstance(cont, VBox):
             if cont.kind == 'set':
+                if cont.term is None:
+                    return False
                 xs = self.zs.lift(x, cont.term.sort().domain())
                 return z3.Select(cont.term, xs)
             if cont.kind == 'dict':
@@ -515,7 +552,7 @@ class ExprMixin:
                         raise Unsupported(f'unset slot {attr}')
                     return v
             raise Unsupported(f'attribute {attr} of {base.pycls.__name__ if base.pycls else base.sort}: not a declared field')
-        if isinstance(base, (VBox, PyList, PyDict)) or z3.is_expr(base):
+        if isinstance(base, (VBox, PyList, PyDict, VMatch)) or z3.is_expr(base):
             return BoundMethod(base, attr)
         if isinstance(base, VObj):
             return self.obj_attr(base, attr, node)
